@@ -194,4 +194,17 @@ def run_case(ctx, idx, rng, tier):
                 if d:
                     ctx.violation("param-build-differs", f"{fmt}: build({tag}) of the decoded template differs: {d[:3]}",
                                   f"param-build-differs:{fmt}", case=case)
+    # ---- (3) the sequence built from the template is a sequence too: its record holds the *built* values (0-d and
+    #      1-d arrays, numpy scalars) where a directly written program holds Python literals -------------------------
+    if seqA.is_parametrized() or mapping:
+        try:
+            with warnings.catch_warnings():
+                warnings.simplefilter("ignore")
+                builtA = seqA.build(**copy.deepcopy(v1), **({"qubits": mapping} if mapping else {}))
+        except Exception:
+            builtA = None
+        if builtA is not None:
+            ctx.count("built_from_template_roundtrips")
+            roundtrip_abstract(ctx, builtA, case, "built-from-template")
+            roundtrip_legacy(ctx, builtA, case, "built-from-template")
     ctx.sample({k: (v if k not in ("template", "ops") else v[:12]) for k, v in case.items()})
